@@ -98,6 +98,7 @@ def gen_cases(ctx):
         yield dict(spec=spec, rhs=rng.choice(["vec", "mat", "mat1", "batched", "bcast_more"]), left=rng.random() < 0.25,
                    cfg=gen_settings(rng), entry=rng.choice(["method", "method", "torch", "function"]),
                    cached=rng.choice([None, None, None, "cholesky", "root_decomposition", "root_inv_decomposition"]),
+                   wrap=rng.choice([None, None, None, None, None, "chol_lower", "chol_upper"]),
                    rseed=rng.randrange(1 << 30))
 
 
@@ -127,9 +128,26 @@ def run_case(case, ctx):
     cfg = dict(case["cfg"])
     if tri:
         cfg = {}
+    wrap = case.get("wrap") if not tri else None
+    if wrap:
+        # harvest: the factor the library itself returns (Kronecker-triangular, block-triangular, diagonal ... objects the zoo
+        # never constructs directly), wrapped back into a CholLinearOperator with the orientation it was asked for
+        from linear_operator.operators import CholLinearOperator
+
+        up = wrap == "chol_upper"
+        with warnings.catch_warnings():
+            warnings.simplefilter("ignore")
+            F, exw = compare.attempt(lambda: CholLinearOperator(op.cholesky(upper=up), upper=up))
+        if exw is not None:
+            ctx.stat("wrap_rejected:" + exw.type)
+            return
+        op = F
+        ctx.stat("harvested_factor:" + type(F.root).__name__)
     entry = case["entry"] if left is None else "method"
     tags = common.spec_tags(spec)
     info = common.spec_info(spec) | {"rhs:" + rk, "cfg:" + settings_key(cfg), "entry:" + entry} | ({"left"} if left is not None else set())
+    if wrap:
+        tags = set(tags) | {"harvested:" + wrap}
     path = zoo.class_path(spec, 2)
     r64 = rhs.to(torch.float64)
     if r64.dim() > 1:  # torch.linalg.solve reads a (*batch, n) right-hand side as a batch of vectors: make the matrix reading explicit
